@@ -210,10 +210,11 @@ def _replay(sub, jobs):
             cooked = []
             used_lca = False
             try:
-                mg = M.Merger.from_revision_ids(w, ro, base=rb, other_branch=obranch)
-                mg.merge_type = types[mt]
-                used_lca = bool(mg._is_criss_cross and mg._lca_trees)
-                cooked = [k.describe() for k in mg.do_merge()]
+                with w.lock_tree_write():           # as cmd_merge does
+                    mg = M.Merger.from_revision_ids(w, ro, base=rb, other_branch=obranch)
+                    mg.merge_type = types[mt]
+                    used_lca = bool(mg._is_criss_cross and mg._lca_trees)
+                    cooked = [k.describe() for k in mg.do_merge()]
             except Exception as e:   # judged through the tree it leaves behind
                 err = "%s: %s" % (type(e).__name__, str(e)[:200])
             try:
